@@ -117,6 +117,28 @@ def scen_shift(env, cfg):
               env.And([env.eq(tSs[p][k], tS[p][(k + h) % n], scale=30) for p in range(pol) for k in range(n)]))
 
 
+def scen_axis_noncommensurate(env, cfg):
+    """gv(R=.., fs=..) with fs/R not an integer: sps is rounded, but the sampling rate in force is the fs that was given."""
+    T = env.lib.typing
+    n, cls, pol = cfg['n'], cfg['cls'], cfg['pol']
+    Rr = env.real('R', 1e6, 1e11) if cfg.get('symR') else env.const(cfg['R'])
+    fs = Rr * env.const(cfg['ratio'])
+    if cfg.get('with_R', True):
+        T.gv(R=Rr, fs=fs)
+    else:
+        T.gv(sps=2, R=Rr)
+        T.gv(fs=fs)                      # only fs: sps from the R in force
+    x, S, N = _obj(env, cls, n, pol, False)
+    freqs = [(i if i < (n + 1) // 2 else i - n) for i in range(n)]
+    exp = [2 * env.pi() * k / n * fs for k in freqs]
+    w = env.items(x.w())
+    env.check('w() == 2*pi*fftfreq(len)*fs for the sampling rate now in gv (fs given directly, fs/R not an integer)',
+              len(w) == n and env.And([env.eq(a, b, scale=1e13) for a, b in zip(w, exp)]))
+    env.check('fs() and dt() report the sampling rate in force', env.And(env.eq(x.fs(), fs, scale=1e12), env.eq(x.dt() * fs, 1, scale=1)))
+    tt = env.items(x.t())
+    env.check('t() has len samples from 0 to len*dt', len(tt) == n and env.eq(tt[0], 0) and env.eq(tt[-1], n / fs, scale=1e-5))
+
+
 def scen_axis_power(env, cfg):
     n, pol, noise, cls = cfg['n'], cfg['pol'], cfg['noise'], cfg['cls']
     gv, fs = _setup(env, cfg)
@@ -166,6 +188,15 @@ def configs(tier):
                 out.append((f'transform-{tag}', scen_transform, base, {}))
                 out.append((f'shift-{tag}', scen_shift, base, {}))
                 out.append((f'axis-power-{tag}', scen_axis_power, base, {}))
+    # sampling rate given directly, not a multiple of the slot rate
+    for cls, pol in (('es', 1), ('os', 2)):
+        for ratio in (('2.6',) if q else ('2.6', '3.4', '1.25', '7.7')):
+            for with_R in (True, False):
+                for n in ((3,) if q else (2, 3, 4, 7)):
+                    out.append((f'axis-noncomm-{cls}{pol}-ratio{ratio}-{"R+fs" if with_R else "fs-only"}-n{n}', scen_axis_noncommensurate,
+                                dict(cls=cls, pol=pol, n=n, R='1e9', ratio=ratio, with_R=with_R), {}))
+                    out.append((f'axis-noncomm-{cls}{pol}-ratio{ratio}-{"R+fs" if with_R else "fs-only"}-n{n}-symR', scen_axis_noncommensurate,
+                                dict(cls=cls, pol=pol, n=n, R='1e9', ratio=ratio, with_R=with_R, symR=True), {}))
     # the signal's own axis while gv holds a grid of the same (or another) length: (len, sps, N)
     for n, sps, N in ((3, 3, 1), (9, 3, 3), (4, 2, 2), (6, 3, 2), (5, 2, 2), (15, 5, 3)) if q else \
             ((3, 3, 1), (9, 3, 3), (4, 2, 2), (6, 3, 2), (5, 2, 2), (15, 5, 3), (21, 3, 7), (25, 5, 5), (8, 4, 2), (7, 7, 1), (7, 2, 3)):
